@@ -206,6 +206,7 @@ func c12(c *evid.Ctx) {
 		return
 	}
 	c12server(c)
+	c12concurrent(c)
 	c12api(c)
 	c12client(c)
 }
@@ -648,6 +649,81 @@ func c12client(c *evid.Ctx) {
 		if c.WantSample() && g%41 == 0 {
 			c.Sample(map[string]any{"client_get": desc, "error": fmt.Sprint(gerr)})
 		}
+		n.Close()
+	}
+}
+
+
+// c12concurrent: local Server.Put calls with rising seq race inbound gets for the same target; every
+// reply must still be one coherent, verifiable item.
+func c12concurrent(c *evid.Ctx) {
+	r := c.R.Fork("concurrent")
+	rounds := c.Scale(24, 800)
+	for round := 0; round < rounds && c.NumViolations() < 20; round++ {
+		n, err := srv.New(dht.ServerConfig{NoSecurity: true})
+		if err != nil {
+			c.Inconclusive(err.Error())
+			return
+		}
+		pub, priv := edKey(r)
+		salt := r.Bytes(gen.Pick(r, []int{0, 3}))
+		target := ref.SHA1(pub, salt)
+		var alloc gen.AddrAlloc
+		puts := 40
+		items := make([]bep44.Put, puts)
+		for i := range items {
+			v := fmt.Sprintf("value-%d-%x", i, r.Bytes(6))
+			var k [32]byte
+			copy(k[:], pub)
+			p := bep44.Put{V: v, K: &k, Salt: salt, Seq: int64(i + 1)}
+			copy(p.Sig[:], ed25519.Sign(priv, ref.Bep44SignBuf(salt, p.Seq, benc.Encode(v))))
+			items[i] = p
+		}
+		done := make(chan struct{})
+		go func() {
+			defer close(done)
+			for _, p := range items {
+				n.S.Put(context.Background(), dht.NewAddr(&net.UDPAddr{IP: net.IP{203, 0, 113, 9}, Port: 9}), p, "tok", dht.QueryRateLimiting{})
+			}
+		}()
+		sent := 0
+		for {
+			select {
+			case <-done:
+			default:
+				n.Conn.Inject(srv.Query("get", "cg", benc.Dict{"id": [20]byte{9}, "target": target}), alloc.V4())
+				sent++
+				if sent%20 == 0 {
+					time.Sleep(100 * time.Microsecond)
+				}
+				continue
+			}
+			break
+		}
+		if err := n.Quiesce(nil); err != nil {
+			c.Inconclusive(err.Error())
+			n.Close()
+			return
+		}
+		lastSeq := int64(0)
+		_ = lastSeq
+		for _, d := range n.Conn.Captured(0) {
+			m, err := benc.DecodeDict(d.B)
+			if err != nil || m["y"] != "r" || m["t"] != "cg" {
+				continue
+			}
+			ret, _ := benc.Sub(m, "r")
+			c.Eval(1)
+			c.Count("get replies checked while puts were racing", 1)
+			if _, has := ret["v"]; has {
+				c.Count("get replies carrying a value while puts were racing", 1)
+			}
+			if msg := verifyServed(ret, target, salt); msg != "" {
+				c.Violation("served-item-fails-reference-check:concurrent", fmt.Sprintf("get answered while Server.Put calls were replacing the item: %s (reply %q)", msg, truncBytes(d.B)), nil)
+				break
+			}
+		}
+		c.Distinct(gen.Hash64("c12conc", round, sent))
 		n.Close()
 	}
 }
